@@ -27,10 +27,13 @@ RL == "rl"
 Threads == Handlers \cup {RL}
 
 \* a response may ask the consumer it hits to send a follow-up message (chain) and / or to
-\* return an error (cerr); only a successful response carries a body that can say so.
-\* A consumer's error is reported to the caller and changes nothing else.
-RespT == {r \in [id : Ids, ok : BOOLEAN, chain : (IF Chain THEN BOOLEAN ELSE {FALSE}), cerr : BOOLEAN] :
-             (r.chain => r.ok) /\ (r.cerr => r.ok)}
+\* return an error (cerr); only a successful response with a body can say so.  A successful
+\* response may also have an empty body (empty).  A consumer's error is reported to the caller
+\* and changes nothing else.
+RespT == {r \in [id : Ids, ok : BOOLEAN, chain : (IF Chain THEN BOOLEAN ELSE {FALSE}), cerr : BOOLEAN,
+                 empty : BOOLEAN] :
+             /\ (r.chain => r.ok) /\ (r.cerr => r.ok)
+             /\ (r.empty => r.ok /\ ~r.chain /\ ~r.cerr)}
 Progs == [pre : 0..MaxPre,
           resps : UNION {[1..n -> RespT] : n \in 0..MaxResp},
           gor : SUBSET Handlers]
